@@ -30,6 +30,7 @@
 // marks {pos (bytes the sink had taken), done[]}, events (only when /repo carries the OOMD_VERIF trace hooks).
 #include "common.h"
 
+#include <dlfcn.h>
 #include <fcntl.h>
 #include <atomic>
 #include <chrono>
@@ -70,6 +71,31 @@ void pushEv(char tag, unsigned long a, unsigned long b, unsigned long c) {
   if (i < kMaxEv) g_ev[i] = Ev{tag, t_tid, t_seq, a, b, c};
 }
 } // namespace
+
+// write(2) on the kmsg descriptor may be interrupted or short, as POSIX allows for any descriptor ("kmsg_io": "eintr" | "short"):
+// every other call on it fails with EINTR / takes only half of the bytes; the record must still arrive whole, once
+static std::atomic<int> g_kmsg_fd{-1};
+static std::atomic<int> g_kmsg_io{0};  // 0 plain, 1 eintr, 2 short
+static std::atomic<unsigned> g_kmsg_faults{0};
+static thread_local bool t_kmsg_faulted = false;
+extern "C" ssize_t write(int fd, const void* buf, size_t n) {
+  using fn_t = ssize_t (*)(int, const void*, size_t);
+  static fn_t real = (fn_t)dlsym(RTLD_NEXT, "write");
+  int mode = g_kmsg_io.load(std::memory_order_relaxed);
+  if (mode != 0 && fd == g_kmsg_fd.load(std::memory_order_relaxed) && n > 1) {
+    if (!t_kmsg_faulted) {
+      t_kmsg_faulted = true;
+      g_kmsg_faults.fetch_add(1, std::memory_order_relaxed);
+      if (mode == 1) {
+        errno = EINTR;
+        return -1;
+      }
+      return real(fd, buf, n / 2);
+    }
+    t_kmsg_faulted = false;
+  }
+  return real(fd, buf, n);
+}
 
 extern "C" void oomd_verif_log_trace(const char* tag, unsigned long a, unsigned long b, unsigned long c) {
   g_hooksSeen.store(true, std::memory_order_relaxed);
@@ -331,6 +357,12 @@ void runScenario(const Json::Value& sc, Json::Value& out) {
   std::string kpath = dir + "/kmsg";
   int kfd = ::open(kpath.c_str(), O_WRONLY | O_CREAT | O_TRUNC | O_APPEND, 0644);  // O_TRUNC: a crashed earlier process with the same pid may have left the file
   if (kfd < 0) die("cannot create kmsg file");
+  g_kmsg_fd.store(kfd);
+  g_kmsg_faults.store(0);
+  {
+    std::string io = sc.get("kmsg_io", "").asString();
+    g_kmsg_io.store(io == "eintr" ? 1 : io == "short" ? 2 : 0);
+  }
 
   auto* rp = new Run(np);
   Run& r = *rp;
@@ -579,6 +611,9 @@ void runScenario(const Json::Value& sc, Json::Value& out) {
     }
   }
   out["kmsg"] = km;
+  out["kmsg_faults"] = g_kmsg_faults.load();
+  g_kmsg_io.store(0);
+  g_kmsg_fd.store(-1);
   Json::Value dn(Json::arrayValue);
   for (auto& x : r.done) dn.append(x.load());
   out["done"] = dn;
